@@ -11,6 +11,7 @@ open Proto LLH
       sel  <opa> <n_events arg | -> <ns> <Rs of all raw events> <keep 0/1 list>   -> as llr, through evalSel
       chk  <opa> <N> <ns> <Rs>                    -> none | value   (llrChecked)
       rex  <opa> <N> <ns> <expr>                  -> none | as llr;  expr in prefix form: L <list> | P <expr> <expr> | S <zb> <s> <b>
+      fld  {<parameter values>}                    -> per evaluation r (field recalculated) | k (kept): fieldRun from a fresh trial
       trl  <opa> {T <n_events arg | -> <Rs> <keep> | E <ns>}   -> the values of the E steps (x = the code raises): trialRun
 -/
 def sumAbs (opa : Float) (N : Nat) (ns : Float) (Rs : List Float) : Float :=
@@ -66,6 +67,8 @@ def answer (line : String) : String :=
           | some Rs => report (pF opa) (pN n) (pF ns) Rs
           | none => "none"
       | _ => "bad-expr"
+  | "fld" :: rest =>
+      fListD (fun (r : Option (List Float) × Bool) => if r.2 then "r" else "k") (fieldRun none (rest.map (pList pF)))
   | "trl" :: opa :: rest =>
       fListD (fun o => match o with | some v => fF v | none => "x") (trialRun (pF opa) none (parseTrialOps rest))
   | ["counts", narg, nraw, nsel] =>
